@@ -688,6 +688,11 @@ func c11Gen(t *rapid.T) c11Case {
 		} else {
 			m.Value = int64(rapid.IntRange(0, 300).Draw(t, "v"))
 		}
+		switch m.Field {
+		case "mexc", "mregionexc", "exc":
+			// the value is a set of flags here (which optional parts of the exception are present)
+			m.Value = int64(rapid.IntRange(0, 3).Draw(t, "flags"))
+		}
 		c.Muts = append(c.Muts, m)
 	}
 	return c
